@@ -202,8 +202,9 @@ PROPS["C01"] = {
     "assumptions": COMMON_ASSUME + ['std::fmt::format stubbed (messages not compared)', 'core::str::from_utf8 replaced by a byte-wise model checked against std (c19_utf8_model_vs_std)', 'forward_to_next_storage_header replaced by its specification (first occurrence) in whole-message storage-mode harnesses; the real function is checked against that specification in C06', 'ids, names, units and string contents are literals in whole-message harnesses (whether a byte is NUL is control for the parser); arbitrary contents are decided in C19 / c02d'],
     "trusted_base": ['reference encoder kani/src/refcodec.rs + shapes.rs (reading of the AUTOSAR layout)'],
     "harnesses": [H("c01::" + n, "quick", 900) for n in ["c01_p_nonverbose_min", "c01_p_nonverbose_ext_storage_be", "c01_p_control_le",
-        "c01_p_verbose_bool_le", "c01_p_verbose_u32_named_be_storage", "c01_p_verbose_string_le", "c01_p_nettrace_le", "c01_p_nettrace_be", "c01_p_nettrace_empty", "c01_p_verbose_empty"]]
-                 + [H("c01::" + n, "quick", 900, what="serialise-then-parse identity in one query") for n in ["c01_rt_nonverbose_min", "c01_rt_control_le", "c01_rt_verbose_bool_le", "c01_rt_nettrace_be"]]
+        "c01_p_verbose_bool_le", "c01_p_verbose_u32_named_be_storage", "c01_p_verbose_string_le", "c01_p_nettrace_le", "c01_p_nettrace_be", "c01_p_nettrace_empty", "c01_p_verbose_empty", "c01_p_nonverbose_nwtrace_type"]]
+                 + [H("c01::" + n, "quick", 900, what="serialise-then-parse identity in one query") for n in ["c01_rt_nonverbose_min", "c01_rt_control_le", "c01_rt_verbose_bool_le", "c01_rt_nettrace_be", "c01_rt_nonverbose_nwtrace_type"]]
+                 + [H("c02w::c02w_ids_multibyte_utf8", "quick", 600, what="ids with multi-byte UTF-8 characters are written into exactly 4 bytes (whole-message harnesses use ASCII ids)")]
                  + [H(e["name"], e["tier"], 900, what="serialise-then-parse identity in one query, one argument layout") for e in _json.load(open(_os.path.join(_os.path.dirname(_os.path.abspath(__file__)), "catalogue.json")))["rt_arg"]]
                  + [H("c01::c01_p_verbose_two_args_u8_bool", "thorough", 3600, mem_gb=40), H("c01::c01_p_nettrace_two_slices", "thorough", 3600, mem_gb=40)]
                  + [H("c14::c14_msin_via_extended_header_parse", "quick", 300, what="every MSIN code (incl. reserved message types) is accepted and decoded by the extended-header parser"),
@@ -231,7 +232,7 @@ _wq = ["c02w_storage_header_id4", "c02w_storage_header_id1", "c02w_standard_head
        "c02w_standard_header_c5", "c02w_extended_header_id4", "c02w_extended_header_id1"]
 _wt = ["c02w_storage_header_id0", "c02w_storage_header_id3", "c02w_standard_header_c1", "c02w_standard_header_c3", "c02w_standard_header_c4",
        "c02w_standard_header_c6", "c02w_extended_header_id0", "c02w_extended_header_id3"]
-_w = _wq + ["c02w_payload_nonverbose_control", "c02w_payload_nettrace_le", "c02w_payload_nettrace_be"]
+_w = _wq + ["c02w_payload_nonverbose_control", "c02w_payload_nettrace_le", "c02w_payload_nettrace_be", "c02w_ids_multibyte_utf8"]
 _wmsg = ["c02w_msg_nonverbose_min", "c02w_msg_nonverbose_ext_storage_be", "c02w_msg_control_le", "c02w_msg_nettrace_be", "c02w_msg_nettrace_storage_le", "c02w_msg_nettrace_empty", "c02w_msg_verbose_f64_all_le", "c02w_msg_verbose_sfix64_v_storage",
          "c02w_msg_verbose_bool_le", "c02w_msg_verbose_u32_named_be_storage", "c02w_msg_verbose_empty"]
 _wmsg_q = ["c02w_msg_nonverbose_ext_storage_be", "c02w_msg_control_le", "c02w_msg_nettrace_be", "c02w_msg_verbose_bool_le", "c02w_msg_verbose_sfix64_v_storage"]
@@ -252,7 +253,9 @@ PROPS["C02"] = {
                  # message / incomplete / reject verdicts incl. consumed length for corrupted declared lengths (shared with C04)
                  + [H(n, "quick", 900) for n in ["c14::c14_htyp_via_standard_header", "c14::c14_msin_via_extended_header_parse", "c19::c19_ids_extended_header",
                     "c19::c19_ids_standard_header_ecu", "gen_c04::c04_verbose_u16_be_nofilter_p0", "gen_c04::c04_verbose_u16_be_nofilter_m1",
-                    "gen_c04::c04_nonverbose_min_nofilter_p4", "gen_c04::c04_nonverbose_min_nofilter_m1", "gen_c04::c04_control_storage_nofilter_p1"]]
+                    "gen_c04::c04_nonverbose_min_nofilter_p4", "gen_c04::c04_nonverbose_min_nofilter_m1", "gen_c04::c04_control_storage_nofilter_p1",
+                    "gen_c04::c04_verbose_noargs_nofilter_p1", "c01::c01_p_nettrace_empty", "c01::c01_p_nonverbose_nwtrace_type"]]
+                 + [H("c15::c15_back_nettrace_be", "quick", 900, what="bytes of a message built by Message::new == reference encoding of the configuration (LEN included)")]
                  + [H("c02w::" + n, "thorough", 900) for n in _wt]
                  + [H("c02w::" + n, "quick" if n in _wmsg_q else "thorough", 900, what="Message::as_bytes == reference encoding of the whole message") for n in _wmsg]
                  + [H(e["name"], "thorough", 900, what="Message::as_bytes == reference encoding, one argument layout") for e in _cat["wm_arg"]]
@@ -329,7 +332,7 @@ PROPS["C15"] = {
 }
 
 _c16_wp_quick = ["c02w::c02w_payload_nonverbose_control", "c02w::c02w_payload_nettrace_le", "c02w::c02w_payload_nettrace_be", "c02w::c02w_extended_header_id4",
-                 "c02w::c02w_standard_header_c7", "c02w::c02w_storage_header_id4", "c02w::c02w_msg_control_le", "c02w::c02w_msg_nettrace_be", "c02w::c02w_msg_verbose_bool_le", "c14::c14_typeinfo_all_words", "c14::c14_msin_via_extended_header_parse",
+                 "c02w::c02w_standard_header_c7", "c02w::c02w_storage_header_id4", "c02w::c02w_ids_multibyte_utf8", "c02w::c02w_msg_control_le", "c02w::c02w_msg_nettrace_be", "c02w::c02w_msg_verbose_bool_le", "c14::c14_typeinfo_all_words", "c14::c14_msin_via_extended_header_parse",
                  "c14::c14_msin_via_extended_header_write", "c01::c01_p_control_le", "c01::c01_p_nettrace_be", "c01::c01_p_nonverbose_ext_storage_be",
                  "gen_args::w_arg_bool_v", "gen_args::p_arg_bool_v", "gen_args::w_arg_u16", "gen_args::p_arg_u16", "gen_args::w_arg_string_v", "gen_args::p_arg_string_v",
                  "gen_args::w_arg_raw", "gen_args::p_arg_raw", "gen_args::w_arg_ufix32_v", "gen_args::p_arg_ufix32_v", "gen_args::w_arg_f32", "gen_args::p_arg_f32"]
@@ -376,6 +379,7 @@ PROPS["C03"] = {
     "trusted_base": [],
     "harnesses": [H("c03::" + n, "quick", 900, mem_checks=True) for n in ["c03_skip_storage_header_any_bytes", "c03_consume_msg_any_htyp_len_full",
                   "c03_consume_msg_any_htyp_len_truncated", "c03_message_as_bytes_largest_declared_length"]]
+                 + [H("c04::c04_validated_payload_length_all", "quick", 300, what="length arithmetic for every header, every declared length and EVERY usize of remaining bytes (inputs > 64 KiB included): no overflow / underflow")]
                  # the same harnesses as in C02 / C04 / C05 / C06 / C13 / C19, re-run here with CBMC's bounds and pointer checks ON
                  + [H(n, "quick", 1200, mem_checks=True, what="re-run with memory-safety checks") for n in [
                     "c19::c19_zstring_model_utf8", "c06::c06_search_real_memmem_8", "c13::c13_u16_raw", "c13::c13_raw", "c13::c13_bool", "c13::c13_string_len2_be",
